@@ -357,7 +357,7 @@ def run(F, rep, tier):
                 subs = [s[2][2][2] for bb in regn for s in cb.stmts(bb) if s[0] == 'a' and s[2][0] == 'cast' and s[2][2][0] == 'k']
                 tab[pat_str(a['pat']) if a['pat'].get('k') != 'range' else '%s..%s' % (a['pat']['lo']['v'], a['pat']['hi']['v'])] = (adds, somes, subs)
         want = {'char:A..char:Z': ([], [], "'A'"), 'char:a..char:z': (['26_u32'], [], "'a'"), 'char:0..char:9': (['52_u32'], [], "'0'"),
-                'char:+ | char:-': ([], ['62_u32'], None), 'char:/ | char:_': ([], ['63_u32'], None)}
+                'char:+': ([], ['62_u32'], None), 'char:-': ([], ['62_u32'], None), 'char:/': ([], ['63_u32'], None), 'char:_': ([], ['63_u32'], None)}
         for k, (adds, somes, sub) in want.items():
             got = tab.get(k)
             if got and got[0] == adds and got[1] == somes and (sub is None or sub in got[2]):
